@@ -9,7 +9,7 @@ concrete data."""
 import itertools
 
 from .terms import (Lin, ZERO, ONE, const, atom, TRUE, FALSE, c_cmp, c_not, c_and, c_or, mk_gamma, mk_alignup, mk_mul, mk_bin,
-                    mk_and, show, show_cond, walk_atoms)
+                    mk_and, show, show_cond, walk_atoms, rebuild_purecall, rebuild_generic, cond_atoms, c_fcmp)
 from .logic import Facts, simplify, simplify_cond, case_split
 from .core import AnalysisBroken
 from .config import VTYPES
@@ -22,7 +22,7 @@ LT_BYTEWISE = {"u8"}                                   # only unsigned single by
 
 
 # ---------------------------------------------------------------------------------------------------
-def deep_subst(t, m):
+def deep_subst(t, m, bits=None):
     """replace atoms by Lin terms everywhere inside t (Lin) - used to rename arguments"""
     memo = {}
 
@@ -51,16 +51,10 @@ def deep_subst(t, m):
             r = ONE if c == TRUE else ZERO if c == FALSE else atom(("b2i", c))
         elif k == "alignup":
             r = mk_alignup(fl(a[1]), a[2])
+        elif k == "purecall":
+            r = rebuild_purecall(a, fl)
         else:
-            out = [k]
-            for x in a[1:]:
-                if isinstance(x, Lin):
-                    out.append(fl(x))
-                elif isinstance(x, tuple) and x and x[0] in ("cmp", "not", "and", "or", "true", "false", "bit"):
-                    out.append(fc(x))
-                else:
-                    out.append(x)
-            r = atom(tuple(out))
+            r = rebuild_generic(a, fl)
         memo[a] = r
         return r
 
@@ -77,9 +71,13 @@ def deep_subst(t, m):
         if k == "cmp":
             if c[1] in ("eq", "ne", "ult", "ule", "slt", "sle", "ugt", "uge", "sgt", "sge"):
                 return c_cmp(c[1], fl(c[2]), fl(c[3]))
+            if c[1].startswith("f"):
+                return c_fcmp(c[1], fl(c[2]), fl(c[3]))
             return ("cmp", c[1], fl(c[2]), fl(c[3]))
         if k == "bit" and isinstance(c[1], Lin):
             return ("bit", fl(c[1]))
+        if k == "bit" and bits and c[1] in bits:
+            return ("bit", bits[c[1]])
         return c
 
     if isinstance(t, Lin):
@@ -106,6 +104,44 @@ def has_exit_bits(t):
     return bool(found)
 
 
+def exit_bits(t):
+    """payloads ('exit', loop, from, to) of the loop-exit bits occurring in t, in canonical order"""
+    found = set()
+
+    def scan_cond(c):
+        for leaf in cond_atoms(c):
+            if leaf[0] == "bit" and isinstance(leaf[1], tuple) and leaf[1] and leaf[1][0] == "exit":
+                found.add(leaf[1])
+            elif leaf[0] == "cmp":
+                walk_atoms(leaf[2], fn)
+                walk_atoms(leaf[3], fn)
+
+    def fn(a):
+        if a[0] in ("gamma", "b2i"):
+            scan_cond(a[1])
+    walk_atoms(t, fn)
+
+    def key(p):
+        def num(x):
+            try:
+                return int(x)
+            except (TypeError, ValueError):
+                return 1 << 30
+        return (p[1], num(p[2]), num(p[3]), str(p))
+    return sorted(found, key=key)
+
+
+def align_exit_bits(want, got):
+    """rename the loop-exit bits of `want` to those of `got` (same count, canonical order) - the two
+    witnesses instantiate the same library loop"""
+    bw, bg = exit_bits(want), exit_bits(got)
+    if not bw and not bg:
+        return want
+    if len(bw) != len(bg):
+        return None
+    return deep_subst(want, {}, bits=dict(zip(bw, bg)))
+
+
 def neg(t):
     """1 - t for a 0/1-valued term, pushed through γ and [c]"""
     if t.is_const():
@@ -123,11 +159,17 @@ def neg(t):
 class CmpTU:
     """per-TU helper: results, operand field terms"""
 
-    def __init__(self, tu):
+    QUICK_PAIRS = [("vec", "vec"), ("cref", "cref"), ("mref", "cref"), ("cref", "mref"), ("elem", "elem"), ("elem", "cref"), ("cref", "elem")]
+
+    def __init__(self, tu, pairs="all"):
+        from .gen import CMP_PAIRS
         self.tu = tu
         self.pl = tu.pl
         self.n = len(tu.pl.params)
         self._fields = {}
+        self.pairs = list(CMP_PAIRS) if pairs == "all" else list(self.QUICK_PAIRS)
+        self.quick = pairs != "all"
+        self.builtin = all(p.vt in ("u8", "c8", "u16", "u32", "u64", "f32", "f64") for p in tu.pl.params)
 
     def fname(self, ka, kb, op):
         return "x_%s_%s_%s" % (ka, kb, op)
@@ -166,15 +208,34 @@ class CmpTU:
         tu = self.tu
         m = argmap([(0, pos)])
         g = lambda f: deep_subst(tu.obs("x_obs_vec", "o", f), m)
-        return {"size": g("size"), "begin": g("begin"), "end": g("end"), "step": g("step"), "cap": g("cap")}
+        d = {"size": g("size"), "begin": g("begin"), "end": g("end"), "step": g("step"), "cap": g("cap")}
+        for i in range(self.pl.nfixed):
+            d["fs%d" % i] = g("fs%d" % i)
+        return d
 
     def base_facts(self, ka, kb):
-        """premises: indices denote elements (i < size(a), j < size(b))"""
+        """premises: indices denote elements (i < size(a), j < size(b)); the element stride of an all-fixed
+        vector is at least the sum of its field sizes (C04, decided separately)"""
         f = Facts()
         for pos, kind in ((0, ka), (1, kb)):
             if kind in ("cref", "mref"):
                 v = self.vec(pos)
                 f.add(c_cmp("ult", atom(("arg", 3 + pos)), v["size"]))
+            if kind != "elem" and self.pl.all_fixed_locator:
+                v = self.vec(pos)
+                need = ZERO
+                nf = 0
+                for p in self.pl.params:
+                    if p.kind == "P":
+                        need = need + p.size
+                    else:
+                        need = need + mk_mul(v["fs%d" % nf], const(p.size))
+                        nf += 1
+                if self.pl.nfixed == 0:
+                    # no run-time sizes: the stride is the constant of the reference layout (C05 P1e decides tightness)
+                    f.add(c_cmp("eq", v["step"], const(model_layout(self.pl, ())[1])))
+                else:
+                    f.add(c_cmp("ule", need, v["step"]))
         return f
 
 
@@ -232,8 +293,7 @@ def rule_fastpath(cx, rec, family, prop_rule_elig, prop_rule_pad):
     tu, pl = cx.tu, cx.pl
     table = EQ_BYTEWISE if family == "eq" else LT_BYTEWISE
     ops = ("eq", "ne") if family == "eq" else ("lt", "le", "gt", "ge")
-    from .gen import CMP_PAIRS
-    for ka, kb in CMP_PAIRS:
+    for ka, kb in cx.pairs:
         for op in ops:
             fn = cx.fname(ka, kb, op)
             sm = tu.S(fn)
@@ -242,6 +302,12 @@ def rule_fastpath(cx, rec, family, prop_rule_elig, prop_rule_pad):
             for e in evs:
                 p, q, n = e.args[0], e.args[1], e.args[2]
                 if ka == "vec":
+                    f0 = Facts()
+                    whole = not e.loops and (f0.is_zero(p - cx.vec(0)["begin"]) or f0.is_zero(p - cx.vec(1)["begin"]))
+                    if not whole:
+                        # element-level comparison inside the generic loop: decided on the reference-level witnesses
+                        rec.count("memcmp_in_element_loop")
+                        continue
                     # whole-buffer comparison: every field of the list takes part, every padding byte too
                     bad = [p_.vt for p_ in pl.params if p_.vt not in table]
                     rec.ob(prop_rule_elig, not bad, {"config": tu.cfg, "witness": fn, "obligation": "whole-buffer memcmp only for bytewise-comparable value types", "types": [p_.vt for p_ in pl.params]})
@@ -260,9 +326,11 @@ def rule_fastpath(cx, rec, family, prop_rule_elig, prop_rule_pad):
                 facts = cx.base_facts(ka, kb)
                 facts.add(e.guard) if e.guard != TRUE else None
                 decided = False
-                for pos, kind, ptr in ((0, ka, p), (1, kb, q)):
+                na = n.single_atom()
+                lens = [n] + ([na[2], na[3]] if na is not None and na[0] == "gamma" else [])
+                for pos, kind, ptr, ln in [(pos, kind, ptr, ln) for (pos, kind) in ((0, ka), (1, kb)) for ptr in (p, q) for ln in lens]:
                     flds = cx.fields(kind, pos)
-                    cv = cover(cx, flds, ptr, n, facts)
+                    cv = cover(cx, flds, ptr, ln, facts)
                     if cv is None:
                         continue
                     decided = True
@@ -289,38 +357,144 @@ def rule_fastpath(cx, rec, family, prop_rule_elig, prop_rule_pad):
 
 
 # ---------------------------------------------------------------------------------------------------
-def values_under(t, facts, max_leaves=18, max_cases=600):
-    """-> list of (facts, simplified value) over the consistent cases of t's conditions"""
-    out = []
-    for f in case_split([t], facts, max_cases=max_cases, max_leaves=max_leaves):
-        if f.infeasible():
-            continue
-        out.append((f, simplify(t, f)))
-    return out
+def refresh(f):
+    """the same facts with every assumed condition re-simplified under all of them (γ inside earlier facts
+    resolve once later facts decide their conditions)"""
+    g = Facts()
+    g.cong_atom = getattr(f, "cong_atom", None)
+    for c in f.raw:
+        if c[0] in ("cmp", "not", "and"):
+            g.add(simplify_cond(c, f))
+        else:
+            g.add(c)
+    return g
 
 
-def always(t, want, facts):
+class Budget(Exception):
+    pass
+
+
+def first_leaf(t, f):
+    """first undecided leaf condition of t (outermost γ / [c] first)"""
+    def in_cond(c):
+        k = c[0]
+        if k in ("true", "false"):
+            return None
+        if k == "not":
+            return in_cond(c[1])
+        if k in ("and", "or"):
+            for x in c[1:]:
+                r = in_cond(x)
+                if r is not None:
+                    return r
+            return None
+        if k == "cmp":
+            for side in (c[2], c[3]):
+                r = in_term(side)
+                if r is not None:
+                    return r
+        if f.decide(c) is None:
+            return c
+        return None
+
+    def in_term(l):
+        if not isinstance(l, Lin):
+            return None
+        for a, _ in sorted(l.t, key=lambda ak: repr(ak[0])):
+            if a[0] == "gamma":
+                r = in_cond(a[1])
+                if r is not None:
+                    return r
+                for br in (a[2], a[3]):
+                    r = in_term(br)
+                    if r is not None:
+                        return r
+            elif a[0] == "b2i":
+                r = in_cond(a[1])
+                if r is not None:
+                    return r
+            elif a[0] in ("mem", "purecall"):
+                for x in a[1:]:
+                    r = in_term(x) if isinstance(x, Lin) else None
+                    if r is not None:
+                        return r
+        return None
+    return in_term(t)
+
+
+def explore(t, facts, budget=400):
+    """depth-first case analysis of the 0/1 (or difference) term t driven by its own value: a branch is
+    abandoned as soon as the facts determine t.  Yields (facts, value) leaves; value is a constant, or a
+    residual term when no further leaf can be split.  Raises Budget when more than `budget` nodes are needed."""
+    nodes = [0]
+
+    def rec(f, depth):
+        nodes[0] += 1
+        if nodes[0] > budget:
+            raise Budget()
+        v = simplify(t, f)
+        if v.is_const() or depth > 24:
+            yield f, v
+            return
+        leaf = first_leaf(v, f)
+        if leaf is None:
+            yield f, v
+            return
+        for lit in (leaf, c_not(leaf)):
+            g = f.copy()
+            g.add(lit)
+            if g.infeasible():
+                continue
+            g2 = refresh(g)
+            if g2.infeasible():
+                continue
+            g.saturate()
+            yield from rec(g, depth + 1)
+
+    f0 = facts.copy()
+    f0.saturate()
+    yield from rec(f0, 0)
+
+
+def always(t, want, facts, budget=400):
     """is the 0/1 term t == want in every consistent case?  -> (True, None) / (False, case) / (None, case)"""
     und = None
-    for f, v in values_under(t, facts):
-        if v.is_const():
-            if v.c != want:
-                return False, (f, v)
-            continue
-        d = v - const(want)
-        if f.is_zero(d):
-            continue
-        a = v.single_atom()
-        if a is not None and a[0] == "b2i":
-            dec = f.eval(a[1])
-            if dec is not None:
-                if int(dec) != want:
+    try:
+        for f, v in explore(t, facts, budget):
+            if v.is_const():
+                if v.c != want:
                     return False, (f, v)
                 continue
-            # an undetermined pure comparison: the result varies with the data
-            if not has_exit_bits(v):
+            if f.is_zero(v - const(want)):
+                continue
+            a = v.single_atom()
+            if a is not None and a[0] == "b2i" and not has_exit_bits(v):
+                # an undetermined pure comparison: the result varies with the data
                 return False, (f, v)
-        und = (f, v)
+            und = (f, v)
+    except Budget:
+        return None, (facts, t)
+    if und is not None:
+        return None, und
+    return True, None
+
+
+def equivalent(t1, t2, facts, budget=600):
+    """0/1 terms equal in every consistent case?  (True / False / None, case)"""
+    if t1 == t2:
+        return True, None
+    und = None
+    try:
+        for f, v in explore(t1 - t2, facts, budget):
+            if v.is_const():
+                if v.c != 0:
+                    return False, (f, v)
+                continue
+            if f.is_zero(v):
+                continue
+            und = (f, v)
+    except Budget:
+        return None, (facts, t1 - t2)
     if und is not None:
         return None, und
     return True, None
@@ -334,34 +508,41 @@ def show_case(case):
 def rule_lengths(cx, rec, rule="K3"):
     """equality implies equal lengths: under 'the operands differ in a length' the result of == is false"""
     tu, pl = cx.tu, cx.pl
-    from .gen import CMP_PAIRS
-    for ka, kb in CMP_PAIRS:
+    for ka, kb in cx.pairs:
+        if cx.quick and (ka, kb) not in (("vec", "vec"), ("cref", "cref"), ("elem", "elem"), ("cref", "elem")):
+            continue
         fn = cx.fname(ka, kb, "eq")
         r = cx.ret(ka, kb, "eq")
         base = cx.base_facts(ka, kb)
         obligations = []
         if ka == "vec":
             va, vb = cx.vec(0), cx.vec(1)
-            obligations.append(("size", va["size"], vb["size"]))
+            whole = [e for e in memcmp_events(tu.S(fn)) if not e.loops]
+            if whole and not pl.all_fixed_locator:
+                # whole-buffer comparison of self-describing (varying-size) elements: equal bytes imply equal
+                # counts only through the stored sizes - a value-level argument, not decided here
+                rec.count("not_decided_varying_whole_buffer")
+            else:
+                    obligations.append(("size", va["size"], vb["size"], "whole-buffer" if whole else "elementwise"))
         else:
             fa, fb = cx.fields(ka, 0), cx.fields(kb, 1)
             for k, p in enumerate(pl.params):
                 if p.kind != "P":
-                    obligations.append(("length of field %d" % k, fa[k][1], fb[k][1]))
-        for what, la, lb in obligations:
+                    obligations.append(("length of field %d" % k, fa[k][1], fb[k][1], "memcmp-run" if p.vt in EQ_BYTEWISE else "elementwise"))
+        for what, la, lb, path in obligations:
             f = base.copy()
             f.add(c_not(c_cmp("eq", la, lb)))
             if f.infeasible():
                 continue
-            ok, case = always(r, 0, f)
+            ok, case = always(r, 0, f, budget=60)
             if ok is None:
                 rec.count("undecided")
-                rec.note("%s %s %s: undecided (%s)" % (tu.cfg, rule, fn, show_case(case)))
+                rec.note("%s %s %s: undecided (%s)" % (tu.cfg, rule, fn, show_case(case)[:300]))
                 continue
             rec.ob(rule, ok, {"config": tu.cfg, "witness": fn, "obligation": "operands differing in %s compare unequal" % what})
             if not ok:
                 lvl = "vector" if ka == "vec" else "element"
-                rec.finding(rule, "%s-eq:%s-ignored" % (lvl, "size" if ka == "vec" else "span-length"),
+                rec.finding(rule, "%s-eq:%s-ignored[%s]" % (lvl, "size" if ka == "vec" else "span-length", path),
                             "%s: operands that differ in %s can compare equal (%s)" % (fn, what, show_case(case)),
                             config=tu.cfg, witness=fn)
 
@@ -375,6 +556,8 @@ def rule_fast_lengths(cx, rec, rule="K3b"):
         va, vb = cx.vec(0), cx.vec(1)
         for e in memcmp_events(sm):
             n = e.args[2]
+            if e.loops or not (Facts().is_zero(e.args[0] - va["begin"]) or Facts().is_zero(e.args[0] - vb["begin"])):
+                continue
             f = Facts()
             if e.guard != TRUE:
                 f.add(e.guard)
@@ -393,35 +576,10 @@ def rule_fast_lengths(cx, rec, rule="K3b"):
                             config=tu.cfg, witness=fn, where=tu.where(sm, e))
 
 
-def equivalent(t1, t2, facts):
-    """0/1 terms equal in every consistent case?  (True / False / None, case)"""
-    if t1 == t2:
-        return True, None
-    d = t1 - t2
-    und = None
-    for f in case_split([t1, t2], facts, max_cases=600, max_leaves=18):
-        if f.infeasible():
-            continue
-        v1, v2 = simplify(t1, f), simplify(t2, f)
-        dv = v1 - v2
-        if dv.is_const():
-            if dv.c != 0:
-                return False, (f, dv)
-            continue
-        if f.is_zero(dv):
-            continue
-        # [c1] vs [c2] with undecided pure conditions
-        und = (f, dv)
-    if und is not None:
-        return None, und
-    return True, None
-
-
 def rule_derived(cx, rec, rule="S1", which=("gt", "le", "ge"), ne_rule=None):
     """derived operators: a>b == b<a, a<=b == !(b<a), a>=b == !(a<b); a!=b == !(a==b)"""
     tu = cx.tu
-    from .gen import CMP_PAIRS
-    for ka, kb in CMP_PAIRS:
+    for ka, kb in cx.pairs:
         base = cx.base_facts(ka, kb)
         todo = []
         if ne_rule:
@@ -437,11 +595,21 @@ def rule_derived(cx, rec, rule="S1", which=("gt", "le", "ge"), ne_rule=None):
             fn = cx.fname(ka, kb, op)
             got = cx.ret(ka, kb, op)
             w = want()
-            ok, case = equivalent(got, w, base)
-            if ok is None or (ok is False and (has_exit_bits(got) or has_exit_bits(w))):
-                rec.count("undecided")
-                rec.note("%s %s %s: undecided against %s" % (tu.cfg, rl, fn, what))
-                continue
+            if has_exit_bits(got) or has_exit_bits(w):
+                # formulas of looping comparisons: decided only by structural identity (same loop, same exits)
+                w2 = align_exit_bits(w, got)
+                if w2 is not None and w2 == got:
+                    ok, case = True, None
+                else:
+                    rec.count("undecided")
+                    rec.note("%s %s %s: undecided against %s (looping formulas differ structurally)" % (tu.cfg, rl, fn, what))
+                    continue
+            else:
+                ok, case = equivalent(got, w, base)
+                if ok is None:
+                    rec.count("undecided")
+                    rec.note("%s %s %s: undecided against %s" % (tu.cfg, rl, fn, what))
+                    continue
             rec.ob(rl, ok, {"config": tu.cfg, "witness": fn, "obligation": "a %s b  ==  %s" % (op, what)})
             if not ok:
                 lvl = "vector" if ka == "vec" else "element"
@@ -454,13 +622,12 @@ def rule_irreflexive(cx, rec, rule="S2"):
     """a < a is false; a == a is true (memcmp(p,p,n) == 0; opaque value operators are not assumed reflexive)"""
     tu = cx.tu
     same = argmap([(1, 0), (4, 3)])
-    from .gen import CMP_PAIRS
-    for ka, kb in CMP_PAIRS:
+    for ka, kb in cx.pairs:
         if ka != kb:
             continue
         for op, want in (("lt", 0), ("eq", 1)):
-            if op == "eq" and not cx.pl.trivial:
-                continue
+            if not cx.builtin:
+                continue  # reflexivity of a user-defined operator is the user's business
             fn = cx.fname(ka, kb, op)
             r = selfcmp(deep_subst(cx.ret(ka, kb, op), same))
             ok, case = always(r, want, cx.base_facts(ka, ka))
@@ -488,8 +655,7 @@ def selfcmp(t):
 def rule_lex(cx, rec, rule="S4lex"):
     """pure fast path of <: with r = memcmp(p, q, min(na, nb)) the result is  r < 0 || (r == 0 && na < nb)"""
     tu = cx.tu
-    from .gen import CMP_PAIRS
-    for ka, kb in CMP_PAIRS:
+    for ka, kb in cx.pairs:
         fn = cx.fname(ka, kb, "lt")
         sm = tu.S(fn)
         evs = memcmp_events(sm)
@@ -508,23 +674,59 @@ def rule_lex(cx, rec, rule="S4lex"):
         if mixed or has_exit_bits(ret):
             continue
         n = e.args[2]
+        if ka != "vec":
+            # pure fast path only: the one memcmp covers every field of an operand
+            fcv = cx.base_facts(ka, kb)
+            if e.guard != TRUE:
+                fcv.add(e.guard)
+            n_at = n.single_atom()
+            lens_ = [n] + ([n_at[2], n_at[3]] if n_at is not None and n_at[0] == "gamma" else [])
+            full = False
+            for pos, kind in ((0, ka), (1, kb)):
+                for ptr in (e.args[0], e.args[1]):
+                    for ln in lens_:
+                        cv = cover(cx, cx.fields(kind, pos), ptr, ln, fcv)
+                        if cv == (0, cx.n - 1):
+                            full = True
+            if not full:
+                continue
         a = n.single_atom()
         if a is not None and a[0] == "gamma":
             na, nb = a[2], a[3]
-            # orient: na belongs to the left operand
-            if ka == "vec":
-                ua = cx.vec(0)["end"] - cx.vec(0)["begin"]
-                f0 = Facts()
-                if not f0.is_zero(simplify(na - ua, f0)):
-                    na, nb = nb, na
+            # orient: na is the extent of the left operand
+            f0 = cx.base_facts(ka, kb)
+
+            def extent(kind, pos):
+                if kind == "vec":
+                    return cx.vec(pos)["end"] - cx.vec(pos)["begin"]
+                fl = cx.fields(kind, pos)
+                return fl[-1][0] + fl[-1][2] - fl[0][0]
+            ea, eb = extent(ka, 0), extent(kb, 1)
+            is_ = lambda x, y: f0.is_zero(simplify(x - y, f0))
+            if is_(na, ea) and is_(nb, eb):
+                pass
+            elif is_(nb, ea) and is_(na, eb):
+                na, nb = nb, na
+            else:
+                rec.count("undecided")
+                rec.note("%s %s %s: cannot attribute the two lengths of the common-prefix memcmp to the operands" % (tu.cfg, rule, fn))
+                continue
         else:
             na = nb = n
         base = cx.base_facts(ka, kb)
         if e.guard != TRUE:
             base.add(e.guard)
-        cases = [("r<0", [c_cmp("slt", r, ZERO)], 1), ("r>0", [c_cmp("slt", ZERO, r)], 0),
-                 ("r==0,na<nb", [c_cmp("eq", r, ZERO), c_cmp("ult", na, nb)], 1),
-                 ("r==0,na>=nb", [c_cmp("eq", r, ZERO), c_not(c_cmp("ult", na, nb))], 0)]
+        cases = []
+        for onm, oc in (("na<nb", c_cmp("ult", na, nb)), ("na==nb", c_cmp("eq", na, nb)), ("na>nb", c_cmp("ult", nb, na))):
+            f0 = base.copy()
+            f0.add(oc)
+            if f0.infeasible():
+                continue
+            f0.saturate()
+            r0 = simplify(r, f0)  # the memcmp atom with its length resolved under this ordering
+            for snm, sc, want in (("r<0", c_cmp("slt", r0, ZERO), 1), ("r>0", c_cmp("slt", ZERO, r0), 0),
+                                  ("r==0", c_cmp("eq", r0, ZERO), 1 if onm == "na<nb" else 0)):
+                cases.append(("%s,%s" % (snm, onm), [oc, sc], want))
         for nm, conds, want in cases:
             f = base.copy()
             for c in conds:
